@@ -177,4 +177,74 @@ Proof.
   - unfold syn_full. rewrite (sumZ_zero Op Rth 0 n (fun k => lo k *r zx L g0 (N + m - 2*k) +r hi k *r zx L g1 (N + m - 2*k))).
     ring. intros k Hk'. rewrite !zx_out by (unfold N in *; lia). ring.
 Qed.
+(* ---------------- periodization: analysis and circular synthesis with the same filter are transposes ---------------- *)
+(* f(phi) = sum_i [phi = i] f(i)  for phi in [0,N) *)
+Lemma pick N (f:Z->R) phi : 0 <= phi < N -> f phi = sumZ 0 N (fun i => if i =? phi then f i else r0 Op).
+Proof. intros H. rewrite sumZ_delta. replace ((0 <=? phi) && (phi <? N)) with true by lia. reflexivity. Qed.
+
+Definition synT_per (L N n:Z) (h g:Z->R) (i:Z) : R :=
+  sumZ 0 n (fun k => sumZ 0 L (fun a => if (i + L/2 - 1 - 2*k - a) mod N =? 0 then g k *r h a else r0 Op)).
+
+Lemma mod_eq_iff N i t : 0 < N -> 0 <= i < N -> ((i =? t mod N) = ((i - t) mod N =? 0)).
+Proof.
+  intros HN Hi. pose proof (Z.div_mod t N ltac:(lia)) as Hdm. pose proof (Z.mod_pos_bound t N HN) as Hb.
+  set (q := t / N) in *. set (r := t mod N) in *.
+  replace (i - t) with ((i - r) + (-q) * N) by lia. rewrite Z.mod_add by lia.
+  rewrite mod0_cases by lia. lia.
+Qed.
+
+Theorem adjoint_per L N h x g : 2 <= L -> L mod 2 = 0 -> 0 < N -> N mod 2 = 0 ->
+  dot (N/2) (ana_per Op L N h x) g = dot N x (synT_per L N (N/2) h g).
+Proof.
+  intros HL HLe HN HNe. unfold dot, ana_per, synT_per.
+  transitivity (sumZ 0 (N/2) (fun k => sumZ 0 L (fun b => sumZ 0 N (fun i =>
+      if i =? (2*k + b - (L-1) + L/2) mod N then x i *r (g k *r h b) else r0 Op)))).
+  - apply sumZ_ext. intros k Hk. rewrite <- sumZ_scale_r by exact Rth. apply sumZ_ext. intros b Hb.
+    rewrite <- (pick N (fun i => x i *r (g k *r h b))) by (apply Z.mod_pos_bound; lia). ring.
+  - transitivity (sumZ 0 N (fun i => sumZ 0 (N/2) (fun k => sumZ 0 L (fun b =>
+      if i =? (2*k + b - (L-1) + L/2) mod N then x i *r (g k *r h b) else r0 Op)))).
+    + transitivity (sumZ 0 (N/2) (fun k => sumZ 0 N (fun i => sumZ 0 L (fun b =>
+        if i =? (2*k + b - (L-1) + L/2) mod N then x i *r (g k *r h b) else r0 Op)))).
+      * apply sumZ_ext. intros k Hk. apply (sumZ_swap Op Rth).
+      * apply (sumZ_swap Op Rth).
+    + apply sumZ_ext. intros i Hi. rewrite <- sumZ_scale by exact Rth. apply sumZ_ext. intros k Hk.
+      rewrite <- sumZ_scale by exact Rth. apply sumZ_ext. intros b Hb.
+      rewrite mod_eq_iff by lia.
+      replace (i - (2*k + b - (L-1) + L/2)) with (i + L/2 - 1 - 2*k - b) by lia.
+      destruct (_ =? 0); ring.
+Qed.
+(* synT_per is Spec.Line.syn_per with one band *)
+Lemma synT_per_syn_per L n h0 h1 g0 g1 i :
+  syn_per Op L n h0 h1 g0 g1 i = synT_per L (2*n) n h0 g0 i +r synT_per L (2*n) n h1 g1 i.
+Proof.
+  unfold syn_per, synT_per. rewrite <- sumZ_add by exact Rth. apply sumZ_ext. intros k Hk.
+  rewrite <- sumZ_add by exact Rth. apply sumZ_ext. intros a Ha. destruct (_ =? 0); ring.
+Qed.
+
+(* orthogonality from (inverse = transpose) + perfect reconstruction *)
+Theorem inner_preserved L N h0 h1 x y : 2 <= L -> L mod 2 = 0 -> 0 < N -> N mod 2 = 0 ->
+  (forall i, 0 <= i < N -> syn_per Op L (N/2) h0 h1 (ana_per Op L N h0 y) (ana_per Op L N h1 y) i = y i) ->
+  dot (N/2) (ana_per Op L N h0 x) (ana_per Op L N h0 y) +r dot (N/2) (ana_per Op L N h1 x) (ana_per Op L N h1 y) = dot N x y.
+Proof.
+  intros HL HLe HN HNe HPR. rewrite !adjoint_per by lia. unfold dot. rewrite <- sumZ_add by exact Rth.
+  apply sumZ_ext. intros i Hi. rewrite <- (HPR i Hi). rewrite synT_per_syn_per.
+  replace (2 * (N/2)) with N by lia. ring.
+Qed.
+
+(* ---------------- linearity of the closed forms ---------------- *)
+Lemma ana_linear L h e1 e2 a b k :
+  ana Op L h (fun q => a *r e1 q +r b *r e2 q) k = a *r ana Op L h e1 k +r b *r ana Op L h e2 k.
+Proof. unfold ana. rewrite <- !sumZ_scale by exact Rth. rewrite <- sumZ_add by exact Rth. apply sumZ_ext. intros; ring. Qed.
+Lemma ana_per_linear L N h e1 e2 a b k :
+  ana_per Op L N h (fun q => a *r e1 q +r b *r e2 q) k = a *r ana_per Op L N h e1 k +r b *r ana_per Op L N h e2 k.
+Proof. unfold ana_per. rewrite <- !sumZ_scale by exact Rth. rewrite <- sumZ_add by exact Rth. apply sumZ_ext. intros; ring. Qed.
+Lemma syn_linear L n g0 g1 lo1 hi1 lo2 hi2 a b m :
+  syn Op L n g0 g1 (fun k => a *r lo1 k +r b *r lo2 k) (fun k => a *r hi1 k +r b *r hi2 k) m
+  = a *r syn Op L n g0 g1 lo1 hi1 m +r b *r syn Op L n g0 g1 lo2 hi2 m.
+Proof. unfold syn. rewrite <- !sumZ_scale by exact Rth. rewrite <- sumZ_add by exact Rth. apply sumZ_ext. intros; ring. Qed.
+Lemma syn_per_linear L n g0 g1 lo1 hi1 lo2 hi2 a b m :
+  syn_per Op L n g0 g1 (fun k => a *r lo1 k +r b *r lo2 k) (fun k => a *r hi1 k +r b *r hi2 k) m
+  = a *r syn_per Op L n g0 g1 lo1 hi1 m +r b *r syn_per Op L n g0 g1 lo2 hi2 m.
+Proof. unfold syn_per. rewrite <- !sumZ_scale by exact Rth. rewrite <- sumZ_add by exact Rth. apply sumZ_ext. intros k Hk.
+  rewrite <- !sumZ_scale by exact Rth. rewrite <- sumZ_add by exact Rth. apply sumZ_ext. intros c Hc. destruct (_ =? 0); ring. Qed.
 End S.
